@@ -37,7 +37,32 @@ API_CODES = [429, 502, 503, 504, 401, 403, 404, 400, 409, 500]
 ITEM_CODES = [429, 502, 503, 504, 400, 409]
 API_SHAPES = ["es", "errstr", "notype", "noerror", "empty", "none", "str", "bytes", "list"]
 ITEM_SHAPES = ["es", "errstr"]
+MANY_SHAPES = ["esmany"]  # more than ten failed items per status (bulk_index only)
+MANY = 12
 N_VARIANTS = 8
+_CLASSES = {}
+
+
+def connection_classes():
+    """Concrete classes of connection errors and timeouts that elastic_transport / elasticsearch.exceptions export, discovered on
+    every run: {"connError": {name: class}, "connTimeout": {name: class}} (TlsError is re-exported as elasticsearch.exceptions.SSLError)."""
+    if _CLASSES:
+        return _CLASSES
+    import elastic_transport
+    import elasticsearch.exceptions
+
+    found = {"connError": {}, "connTimeout": {}}
+    for mod in (elastic_transport, elasticsearch.exceptions, elasticsearch):
+        for name in dir(mod):
+            obj = getattr(mod, name)
+            if not isinstance(obj, type):
+                continue
+            if issubclass(obj, elastic_transport.ConnectionTimeout):
+                found["connTimeout"].setdefault(obj.__name__, obj)
+            elif issubclass(obj, elastic_transport.ConnectionError):
+                found["connError"].setdefault(obj.__name__, obj)
+    _CLASSES.update(found)
+    return _CLASSES
 
 
 def _shape(entry):
@@ -158,13 +183,22 @@ class Session:
             ops = kwargs.get("operations") or []
             ndocs = len(ops) // 2
             statuses = sorted(items)
+            if shape in MANY_SHAPES:
+                # more than ten failed items of every status, grouped by status (the order of the groups varies below)
+                groups = statuses
+                rot = var % len(groups)
+                groups = groups[rot:] + groups[:rot]
+                if var % 2:
+                    groups.reverse()
+                statuses = [st for st in groups for _ in range(MANY)]
             if ndocs < len(statuses):
                 raise tlc.MachineryError("not enough documents (%d) for item statuses %s" % (ndocs, statuses))
             # the order of the failed items and their position among successful ones vary with the variant
-            rot = var % len(statuses)
-            statuses = statuses[rot:] + statuses[:rot]
-            if var % 2:
-                statuses.reverse()
+            if shape not in MANY_SHAPES:
+                rot = var % len(statuses)
+                statuses = statuses[rot:] + statuses[:rot]
+                if var % 2:
+                    statuses.reverse()
             first = (var // 2) % (ndocs - len(statuses) + 1)
             body_items = []
             for j in range(ndocs):
@@ -180,7 +214,16 @@ class Session:
             prod = elastic_transport.ObjectApiResponse(body={"errors": True, "took": n, "items": body_items}, meta=_meta(200))
             self.products.append(prod)
             return prod  # the real elasticsearch.helpers.bulk turns this into BulkIndexError
-        if k == "connTimeout":
+        if k in ("connTimeout", "connError") and shape:
+            # the concrete class is part of the outcome; the variant decides whether the transport attached the low-level error
+            import ssl
+
+            cls = connection_classes()[k].get(shape)
+            if cls is None:
+                raise tlc.MachineryError("unknown %s class %r" % (k, shape))
+            inner = ssl.SSLError(1, "[SSL] record layer failure (_ssl.c:1000)") if shape == "TlsError" else TimeoutError("inner") if k == "connTimeout" else ConnectionResetError(104, "reset by peer")
+            prod = cls("verif_%s_%d" % (k, n), errors=(inner,)) if var % 2 else cls("verif_%s_%d" % (k, n))
+        elif k == "connTimeout":
             prod = [elasticsearch.ConnectionTimeout("verif_timeout_%d" % n), elastic_transport.ConnectionTimeout("verif_timeout_%d" % n, errors=(TimeoutError("inner"),))][var % 2]
         elif k == "connError":
             prod = [elasticsearch.ConnectionError("verif_conn_%d" % n), elastic_transport.TlsError("verif_tls_%d" % n), elasticsearch.ConnectionError("verif_conn_%d" % n, errors=(OSError("refused"),))][var % 3]
@@ -404,7 +447,7 @@ def _script_from_state(st, rnd):
 def _ndocs(script, kind, rnd):
     if kind == "bulk1":
         return rnd.choice([1, 2])  # parity only decides whether an explicit id is passed; index() always sends one document
-    need = max([len(s[2]) for s in script] + [1])
+    need = max([len(s[2]) * (MANY if _shape(s) in MANY_SHAPES else 1) for s in script] + [1])
     return need + rnd.choice([0, 1, 3])
 
 
@@ -484,11 +527,12 @@ def alphabet(kind, shapes="es"):
     want = (lambda sh: sh == "es") if shapes == "es" else (lambda sh: sh != "es") if shapes == "other" else (lambda sh: True)
     base = []
     if shapes != "other":
-        base += [("ok", 0, [], ""), ("connTimeout", 0, [], ""), ("connError", 0, [], ""), ("transportOther", 0, [], "")]
+        base += [("ok", 0, [], ""), ("transportOther", 0, [], "")]
+        base += [(k, 0, [], name) for k in ("connTimeout", "connError") for name in sorted(connection_classes()[k])]
     base += [("api", c, [], sh) for c in API_CODES for sh in API_SHAPES if want(sh)]
     if kind == "bulk":
         for mask in range(1, 1 << len(ITEM_CODES)):
-            base += [("bulk", 0, [c for b, c in enumerate(ITEM_CODES) if mask >> b & 1], sh) for sh in ITEM_SHAPES if want(sh)]
+            base += [("bulk", 0, [c for b, c in enumerate(ITEM_CODES) if mask >> b & 1], sh) for sh in ITEM_SHAPES + MANY_SHAPES if want(sh)]
     elif kind == "bulk1":
         base += [("bulk", 0, [c], sh) for c in ITEM_CODES for sh in ITEM_SHAPES if want(sh)]
     return base
@@ -591,7 +635,7 @@ def _count_situations(case):
     for j, o in enumerate(case["script"][:11]):
         key = (case["op"], _outcome_class(o), "0" if j == 0 else "10" if j == 10 else "1-9")
         SITUATIONS[key] = SITUATIONS.get(key, 0) + 1
-        if o[0] in ("api", "bulk"):
+        if o[0] in ("api", "bulk") or (o[0] in ("connError", "connTimeout") and _shape(o)):
             key = (case["op"], _outcome_class(o), "shape:" + _shape(o))
             SITUATIONS[key] = SITUATIONS.get(key, 0) + 1
         if not _is_transient(o):
@@ -660,6 +704,9 @@ def run(ctx, out):
         "status code or message of the fault",
         "bulk_index / index return nothing by design; 'the first successful attempt's result is returned' is checked for the operations that return the client's result",
         "other Python exceptions (not API / transport / bulk errors) are outside the property and are not injected",
+        "connection errors and timeouts are injected as every concrete class that elastic_transport / elasticsearch.exceptions export (discovered on every run: ConnectionError, "
+        "TlsError = SSLError, ConnectionTimeout), with and without the low-level error attached; bulk responses carry one failed item per status or (esmany) twelve per status, "
+        "grouped by status in varying order and position",
         "ApiError objects are built as elasticsearch's BaseClient.perform_request builds them (message derived from the body) for every body the transport can deliver: "
         "JSON object with error object / error string / error object without type / without error / empty, no body (HEAD), str (text/*), bytes, JSON array; bulk item errors "
         "as object or (legacy) string; the documented reaction depends on the status only",
@@ -717,7 +764,9 @@ def run(ctx, out):
     classes = ["ok", "connTimeout", "connError", "transportOther", "api-transient", "api-401", "api-403", "api-other"]
     want = [(op, cl, b) for op, kind in sorted(ops.items()) for cl in classes + (["bulk-transient", "bulk-non-retryable"] if kind != "plain" else []) for b in ("0", "1-9", "10")]
     want += [(op, cl, "shape:" + sh) for op in sorted(ops) for cl in ("api-transient", "api-401", "api-403", "api-other") for sh in API_SHAPES]
-    want += [(op, cl, "shape:" + sh) for op, kind in sorted(ops.items()) if kind != "plain" for cl in ("bulk-transient", "bulk-non-retryable") for sh in ITEM_SHAPES]
+    want += [(op, cl, "shape:" + sh) for op, kind in sorted(ops.items()) if kind != "plain" for cl in ("bulk-transient", "bulk-non-retryable") for sh in ITEM_SHAPES + (MANY_SHAPES if kind == "bulk" else [])]
+    want += [(op, k, "shape:" + name) for op in sorted(ops) for k in ("connError", "connTimeout") for name in sorted(connection_classes()[k])]
+    out.extra["connection_error_classes"] = {k: sorted(v) for k, v in connection_classes().items()}
     missing = [w for w in want if not SITUATIONS.get(w)]
     out.extra["situations_exercised"] = "%d of %d (operation x outcome class x (preceding retries 0 / 1-9 / 10 | body shape)), least often: %d executions" % (
         len(want) - len(missing),
